@@ -19,6 +19,18 @@ static long holder_bad(int i) {       /* the other elements of the container are
   return (len(c) == 2 && !strcmp(c_str(get(c, $I(2))), "other") && get(c, $I(1)) == objs_[i]) ? 0 : 1;
 }
 
+/* the documented hash of a String: MurmurHash64A of its characters with the library's seed (written out here independently) */
+static uint64_t ref_murmur(const char* key, size_t len) {
+  const uint64_t m = 0xc6a4a7935bd1e995ULL; const int r = 47;
+  uint64_t h = 0xCe110ULL ^ (len * m);
+  size_t nb = len / 8;
+  for (size_t i = 0; i < nb; i++) { uint64_t k; memcpy(&k, key + 8 * i, 8); k *= m; k ^= k >> r; k *= m; h ^= k; h *= m; }
+  const unsigned char* tail = (const unsigned char*)key + 8 * nb; size_t rem_ = len & 7;
+  for (size_t i = rem_; i > 0; i--) h ^= (uint64_t)tail[i - 1] << (8 * (i - 1));
+  if (rem_) h *= m;
+  h ^= h >> r; h *= m; h ^= h >> r;
+  return h;
+}
 static void emit_bytes(const char* k, const char* s) {
   ev_key(k); ev_s("[");
   for (size_t i = 0; s[i]; i++) { if (i) ev_s(","); ev_i((unsigned char)s[i]); }
@@ -33,7 +45,7 @@ static void emit(const char* op, int o, int p, long long n, const char* a, const
   for (int i = 1; i < MAXO; i++) if (objs_[i]) {
     struct String* s = objs_[i];
     ev_obj_begin(); ev_int("o", i); emit_bytes("s", c_str(s)); ev_int("len", (long long)len(s));
-    ev_limbs("h", hash(s)); ev_int("cap", (long long)malloc_usable_size(s->val));
+    ev_limbs("h", hash(s)); ev_limbs("href", ref_murmur(c_str(s), strlen(c_str(s)))); ev_int("cap", (long long)malloc_usable_size(s->val));
     ev_obj_end();
   }
   ev_arr_end();
